@@ -873,3 +873,42 @@ func instrsWithNewHelpers(c *km.Ctx, fn *ssa.Function, depth int, f func(ssa.Ins
 	}
 	rec(fn, depth)
 }
+
+// checkConfigKeys: the configuration fields a property depends on are still read from the YAML keys that existing
+// configuration files use (km.ConfigKeyDrift); prefixes are "Type." (all fields) or "Type.Field" of cmd/keymasterd.
+func checkConfigKeys(c *km.Ctx, rule, what string, prefixes ...string) {
+	var full []string
+	for _, p := range prefixes {
+		full = append(full, KMD+"."+p)
+	}
+	n, diffs := km.ConfigKeyDrift(c.P, full)
+	if n == 0 {
+		c.R.AnchorLost(rule, "recorded configuration keys of "+what)
+		return
+	}
+	c.R.Add(rule, "cmd/keymasterd", "configuration keys of "+what, "cmd/keymasterd/config.go", "each field is read from the key existing configuration files use (an unknown key is ignored and the field stays at its zero value)", sprintf("%d fields compared; %s", n, strings.Join(diffs, "; ")), len(diffs) == 0)
+}
+
+// callsWithNewHelpersFuncs: fn and the helpers it calls that are new to the tree, to the given depth.
+func callsWithNewHelpersFuncs(c *km.Ctx, fn *ssa.Function, depth int) []*ssa.Function {
+	seen := map[*ssa.Function]bool{}
+	var out []*ssa.Function
+	var rec func(f *ssa.Function, d int)
+	rec = func(f *ssa.Function, d int) {
+		if seen[f] {
+			return
+		}
+		seen[f] = true
+		out = append(out, f)
+		if d <= 0 {
+			return
+		}
+		for _, ci := range km.CallsIn(f) {
+			if g := km.StaticCallee(ci.Common()); g != nil && len(g.Blocks) > 0 && c.InModule(g) && !c.P.IsRecorded(g) {
+				rec(g, d-1)
+			}
+		}
+	}
+	rec(fn, depth)
+	return out
+}
